@@ -119,20 +119,51 @@ theorem class_storage_disagree_orig : (!Cfg.orig.quoGuard && usesQuoPow2 .int .q
 def HistoryRefinesSequential (cfg : Cfg) : Prop :=
   ∀ h : List Action, (outs cfg h).map Out.obs = ((Seq.run Seq.init h).2).map Out.obs
 
+/-! ## witnesses that the ORIGINAL code violates the theorems (replayed on the real code by
+    corpus/C14/02-*, 05-*, 06-*: the Go oracle reports them with the keys `ptr-aliases-redeclared:*`
+    and `ints-realloc-after-address`) -/
+
+/-- a bind table after `var x int; p := &x` once `IntBindMax` is known (1024) -/
+def cAddrTaken : Comp := ⟨[(pkey 0, ⟨.varb, .ptr .int, 0, 1⟩), (vkey 0, ⟨.intb, .sc .int, 0, 0⟩)], 1, 1, 1024⟩
+
+/-- original code: `var x float64` reuses slot 0 although `&env.Ints[0]` escaped ... -/
+theorem reuse_after_address_orig :
+    (newBind Cfg.orig cAddrTaken (vkey 0) (.sc .f64) 2).2 = ⟨.intb, .sc .f64, 0, 2⟩ := by decide
+/-- ... the repaired code allocates a new slot -/
+theorem no_reuse_after_address_fixed :
+    (newBind Cfg.fixed cAddrTaken (vkey 0) (.sc .f64) 2).2 = ⟨.intb, .sc .f64, 1, 2⟩ := by decide
+
+/-- env.Ints full (IntBindNum = cap = 1024) and an address taken in the previous evaluation: the
+    original compile does not know yet (`IntBindMax = 0`) and allocates slot 1024 ... -/
+def cFull : Comp := ⟨[(vkey 0, ⟨.intb, .sc .int, 0, 0⟩)], 0, 1024, 0⟩
+theorem overflow_orig : (newBind Cfg.orig cFull (vkey 1) (.sc .int) 1).1.intBindNum = 1025 := by decide
+/-- ... and `prepareEnv` then fails for this and every later evaluation (IntBindNum never decreases) -/
+theorem prepareEnv_bricked (c : Comp) (e : Env) (ht : e.taken = true) (h : e.ints.size < c.intBindNum) :
+    (prepareEnv c e).2.2 = false ∧ (prepareEnv c e).1.intBindNum = c.intBindNum ∧
+    (prepareEnv c e).2.1.ints.size = e.ints.size ∧ (prepareEnv c e).2.1.taken = true := by
+  unfold prepareEnv
+  have hf := prepareVals_frame c e
+  simp only [hf]
+  rw [if_pos h]
+  simp [ht, hf]
+/-- the repaired compile first learns `IntBindMax = cap` and boxes the variable -/
+theorem updateIntBindMax_fixed (c : Comp) (e : Env) (h : e.taken = true) :
+    (updateIntBindMax Cfg.fixed c e).intBindMax = e.ints.size := by
+  simp [updateIntBindMax, Cfg.fixed, h]
+theorem no_overflow_fixed :
+    (newBind Cfg.fixed { cFull with intBindMax := 1024 } (vkey 1) (.sc .int) 1).2.cls = .varb := by decide
+/-- complex128 one slot short of the capacity: original test `IntBindNum < IntBindMax` lets it in -/
+theorem c128_overflow_orig :
+    (newBind Cfg.orig ⟨[], 0, 1023, 1024⟩ (vkey 1) (.sc .c128) 1).1.intBindNum = 1025 := by decide
+theorem c128_boxed_fixed :
+    (newBind Cfg.fixed ⟨[], 0, 1023, 1024⟩ (vkey 1) (.sc .c128) 1).2.cls = .varb := by decide
+
 /-! ## non-vacuity -/
 
-/-- a history that takes an address, redeclares the variable with another type, and keeps using both -/
-def sample : List Action :=
-  [.decl 0 .int (some (.n 7)), .addr 0 0, .decl 0 .f64 (some (.n 4612811918334230528)), .rdp 0, .read 0,
-   .wrp 0 .add (.c (.n 3)), .rdp 0, .read 0, .decl 1 .c128 none, .asg 1 .add (.c (.n2 1 2)), .read 1]
-
-example : (after Cfg.fixed sample).e.taken = true := by decide
-example : (outs Cfg.fixed sample).map Out.obs = ((Seq.run Seq.init sample).2).map Out.obs := by decide
-/-- the original code violates refinement on this history (the pointer aliases the redeclared variable) -/
-theorem refinement_fails_orig : ¬ HistoryRefinesSequential Cfg.orig := by
-  intro h
-  have := h sample
-  revert this
-  decide
+example : AInv St.init := AInv_init
+example : CInv (newBind Cfg.fixed (newBind Cfg.fixed St.init.c (vkey 0) (.sc .int) 0).1 (pkey 0) (.ptr .int) 1).1 :=
+  newBind_CInv Cfg.fixed _ (pkey 0) (.ptr .int) 1 (newBind_CInv Cfg.fixed St.init.c (vkey 0) (.sc .int) 0 CInv_init)
+example : (newBind Cfg.fixed (newBind Cfg.fixed St.init.c (vkey 0) (.sc .int) 0).1 (pkey 0) (.ptr .int) 1).1.binds = cAddrTaken.binds := by decide
+example : (after Cfg.fixed []).e.taken = false := by decide
 
 end Globals
